@@ -27,7 +27,7 @@ def _hms(r):
 
 def perturb(rnd, m, desc, diff):
     d2 = copy.deepcopy(desc)
-    single = desc["n"] == 1 or (desc["fmt"] != 1 and not any(desc["d"].values()))
+    single = desc["n"] == 1 or (desc["fmt"] != 1 and recur.is_zero_interval(desc["d"]))
     if single and diff in ("interval", "n"):
         return None      # a single-point recurrence has no interval; n is forced to 1 by a zero interval
     if diff == "none":
@@ -108,6 +108,7 @@ def run_case(case, rec, cid):
         how = case["how"]
 
         def f():
+            hash(r)                    # (r may have been a dict key / set member before it is shifted)
             if how == "add":
                 r2 = r + d
             elif how == "radd":
@@ -156,6 +157,13 @@ def run_case(case, rec, cid):
         return True
     if kind == "text":
         def t():
+            if case.get("zfmt"):
+                # points that carry a "...Z" dump format (the parser's dump_format option): their text is the UTC clock reading
+                pz = recur.Z_PARSERS[case["zfmt"] - 1]
+                rz = pz.parse(recur.rec_text(desc))
+                s = str(rz)
+                r2 = pz.parse(s)
+                return dict(eq=bool(r2 == rz), strfix=str(r2) == s, p1=_pts(rz), p2=_pts(r2))
             s = str(r)
             r2 = recur._PARSER.parse(s)
             if case.get("noiter"):
@@ -163,9 +171,9 @@ def run_case(case, rec, cid):
             return dict(eq=bool(r2 == r), strfix=str(r2) == s, p1=_pts(r), p2=_pts(r2))
         st, v = outcome(t)
         if st == "ok":
-            rec.ev("RecText", cid, ok=True, cls="", **v)
+            rec.ev("RecText", cid, ok=True, cls="", byinst=bool(case.get("zfmt")), **v)
         else:
-            rec.ev("RecText", cid, ok=False, cls=type(v).__name__, eq=False, strfix=False, p1=[], p2=[])
+            rec.ev("RecText", cid, ok=False, cls=type(v).__name__, eq=False, strfix=False, p1=[], p2=[], byinst=False)
         return True
     raise ValueError(kind)
 
@@ -222,7 +230,12 @@ def expand(job):
                 desc = dict(desc, d={rnd.choice(["h", "mi", "s"]): rnd.choice([0.5, 1.25, 0.0000125, 1e-07, 3e-10, 9.99999e-05, 0.1234567891234, 2.5e-06])})
                 yield {"mode": sp, "rec": desc, "kind": "text", "noiter": True}
                 continue
-            yield {"mode": sp, "rec": desc, "kind": "text"}
+            case_ = {"mode": sp, "rec": desc, "kind": "text"}
+            if recur.parseable(desc) and desc["fmt"] != 1 and not desc["a"].get("dec") and rnd.random() < 0.3:
+                case_["zfmt"] = rnd.choice([1, 2])
+                z_ = rnd.choice([(0, -30), (0, 45), (-3, -30), (5, 30), (0, 0), (1, 0)])
+                case_["rec"] = dict(desc, a=dict(desc["a"], zh=z_[0], zm=z_[1]))
+            yield case_
 
 
 def jobs(tier, seed):
